@@ -29,11 +29,11 @@ Classes == {"r_zero", "s_zero", "high_s_rej", "high_s_acc", "x_ge_n", "R_inf", "
             "d_one", "d_nm1", "pub_yodd", "pub_yeven", "digest_zero", "digest_ones", "neg_s", "noneg_s", "v0", "v1",
             "sv_same", "build_der", "build_short", "build_compact", "inadmissible_len", "inadmissible_enc", "rfc6979", "hedged", "sign_len_long",
             "reader_short_reads", "reader_fail_0", "reader_fail_mid", "reader_fail_31", "reader_err_with_last", "reader_ok",
-            "same_triple", "entropy_one_byte_diff", "constant_entropy_diff_msg",
+            "same_triple", "entropy_one_byte_diff", "constant_entropy_diff_msg", "nil_rand", "wiped_import",
             "sample_first", "sample_after_zero", "sample_after_ge_n", "sample_exhausted", "sample_short", "sample_edge_accept",
             "drbg_multi", "drbg_vector",
             "priv_ok", "priv_zero", "priv_ge_n", "priv_badlen", "pub_ok_unc", "pub_ok_cmp", "pub_identity", "pub_invalid",
-            "pub_twist", "ecdh_ok", "ecdh_edge", "key_immutable",
+            "pub_twist", "ecdh_ok", "ecdh_edge", "ecdh_repeat", "key_immutable", "after_scribble", "steered_u2",
             "rec_v_ge4", "rec_hi_ok", "rec_hi_overflow", "rec_not_x", "rec_q_inf", "rec_rs_zero", "rec_ok", "rec_honest_other_v"}
 
 RPointOf(q, e, r, s) == LET w == SInv(s) IN PAdd(PMulG(SMul(e, w)), PMul(SMul(r, w), q))
@@ -110,7 +110,8 @@ Verdict(ev) ==
     [] ev.ev = "vfy.Raw" ->
          LET q == PtOfEnc(ev.q)  eo == EOf(ev.digest)  r == H(ev.r)  s == H(ev.s)
              want == eo[1] = "ok" /\ VerifyPred(q, eo[2], r, s) IN
-         << KeyOK(ev.q) /\ (ev.out <=> want), VerifyClasses(q, eo, r, s, ev.out) \cup DigestClasses(ev.digest) >>
+         << KeyOK(ev.q) /\ (ev.out <=> want),
+            VerifyClasses(q, eo, r, s, ev.out) \cup DigestClasses(ev.digest) \cup (IF Has(ev, "after_scribble") THEN {"after_scribble"} ELSE {}) >>
     [] ev.ev = "vfy.Alt" ->
          LET d == H(ev.d)  eo == EOf(ev.digest)  r == H(ev.r)  s == H(ev.s)
              want == eo[1] = "ok" /\ VerifyPred(PMulG(d), eo[2], r, s) IN
@@ -219,6 +220,12 @@ Verdict(ev) ==
          << /\ ev.kb2 = ev.kb1 /\ ev.pb2 = ev.pb1 /\ ev.pc2 = ev.pc1 /\ ev.pa2 = ev.pa1 /\ ev.pp2 = ev.pp1 /\ ev.sig2 = ev.sig1
             /\ ev.copies_ok /\ ev.verify_after /\ ev.kb1 = ev.d /\ ev.pb1 = EncUncompressedH(PMulG(H(ev.d))) /\ ev.pp1 = ev.pb1,
             {"key_immutable"} >>
+    [] ev.ev = "ecdh.Repeat" ->           \* the same key objects used twice: identical secrets, operands untouched
+         LET a == H(ev.a)  b == H(ev.b)  want == EcdhM(PMul, SMul(a, b), GenPt) IN
+         << /\ ev.ok /\ want[1] = "ok" /\ IntIsHex(want[2], W, ev.ab1) /\ ev.ab2 = ev.ab1 /\ ev.ba1 = ev.ab1 /\ ev.ba2 = ev.ab1
+            /\ ev.peer_bytes = EncUncompressedH(PMulG(b)) /\ ev.peer_point = ev.peer_bytes
+            /\ ev.apub_bytes = EncUncompressedH(PMulG(a)) /\ ev.apub_point = ev.apub_bytes,
+            {"ecdh_repeat"} >>
     [] ev.ev = "ecdh" ->
          LET a == H(ev.a)  b == H(ev.b)  want == EcdhM(PMul, SMul(a, b), GenPt) IN
          << /\ KeyOK(ev.bpub) /\ PEq(PtOfEnc(ev.bpub), PMulG(b)) /\ KeyOK(ev.apub) /\ PEq(PtOfEnc(ev.apub), PMulG(a))
@@ -266,6 +273,7 @@ StatefulVerdict(ev) ==
           {"reader_ok"} \cup (IF Len(ev.reads) > 1 THEN {"reader_short_reads"} ELSE {})
           \cup (IF \E i \in 1..Len(ev.reads) : ev.reads[i][3] THEN {"reader_err_with_last"} ELSE {})
           \cup (IF known THEN {"same_triple"} ELSE {})
+          \cup (IF Has(ev, "nil_rand") THEN {"nil_rand"} ELSE {}) \cup (IF Has(ev, "wiped_import") THEN {"wiped_import"} ELSE {})
           \cup (IF ~known /\ \E k \in DOMAIN seenKey : k[1] = key[1] /\ k[2] = key[2] THEN {"entropy_one_byte_diff"} ELSE {})
           \cup (IF ~known /\ \E k \in DOMAIN seenKey : k[3] = key[3] /\ (k[1] # key[1] \/ k[2] # key[2]) THEN {"constant_entropy_diff_msg"} ELSE {}),
           IF known THEN seenKey ELSE [k \in DOMAIN seenKey \cup {key} |-> IF k = key THEN <<ev.r, ev.s>> ELSE seenKey[k]],
